@@ -842,22 +842,35 @@ where
         let capacity = entries.len();
         let index = (hash as usize) & *mask;
 
-        // Linear probing to find slot
+        // Linear probing: the key may live behind a tombstone, so remember the first
+        // reusable slot and keep probing until the key or an empty slot is found
+        let mut free_slot: Option<usize> = None;
         for i in 0..capacity {
             let probe_index = (index + i) & *mask;
             let entry = &mut entries[probe_index];
 
-            if entry.hash == 0 || entry.hash == u64::MAX {
-                // Empty slot or tombstone, insert here
-                entry.key = key;
-                entry.value = value;
-                entry.hash = hash;
-                return Ok(None);
+            if entry.hash == 0 {
+                if free_slot.is_none() {
+                    free_slot = Some(probe_index);
+                }
+                break;
+            } else if entry.hash == u64::MAX {
+                if free_slot.is_none() {
+                    free_slot = Some(probe_index);
+                }
             } else if entry.hash == hash && entry.key == key {
                 // Key exists, update value
                 let old_value = std::mem::replace(&mut entry.value, value);
                 return Ok(Some(old_value));
             }
+        }
+
+        if let Some(slot) = free_slot {
+            let entry = &mut entries[slot];
+            entry.key = key;
+            entry.value = value;
+            entry.hash = hash;
+            return Ok(None);
         }
 
         // Table is full, need to resize
